@@ -835,7 +835,11 @@ impl<R: Read> RdbReader<R> {
         let ttl = if expiry_ms > now_ms {
             Some(Duration::from_millis(expiry_ms - now_ms))
         } else {
-            None // Already expired
+            // Already expired while the server was down. The value still has to be read to stay
+            // in step with the file, but the key must not come back - least of all without a
+            // deadline: it is loaded with its deadline already reached, so it is invisible to
+            // every command and the expiry sweeper removes it.
+            Some(Duration::from_millis(0))
         };
         
         self.read_key_value_with_type(storage, db, value_type, ttl)
